@@ -27,6 +27,16 @@ pub(crate) fn any_time() -> SystemTime {
     t.unwrap()
 }
 
+/// (time, whole seconds since the epoch) - lets a harness compute the shard of a time without calling
+/// duration_since (whose implementation is recursive and expensive for CBMC)
+pub(crate) fn any_time_with_secs() -> (SystemTime, u64) {
+    let secs: u64 = kani::any();
+    let nanos: u32 = kani::any();
+    kani::assume(nanos < 1_000_000_000);
+    kani::assume(secs <= i64::MAX as u64);
+    (SystemTime::UNIX_EPOCH + Duration::new(secs, nanos), secs)
+}
+
 // has_passed(t) <=> now > t  (strictly: at the expiry instant itself the key is still alive)
 #[kani::proof]
 fn has_passed_is_strictly_after() {
